@@ -269,7 +269,9 @@ class RepeatedValueWrapper(MutableSequence[_V], Generic[_M, _V]):
         if not -len(self._raw_indexes) <= index < len(self._raw_indexes):
             raise IndexError('pop index out of range')
         raw_index = self._raw_indexes[index]
-        return self._from_raw_type(self._raw_wrapper.pop(raw_index))
+        value = self._from_raw_type(self._raw_wrapper[raw_index])  # converted first: it may raise (1 / 0), and nothing is removed then
+        self._raw_wrapper.pop(raw_index)
+        return value
 
     def reverse(self) -> None:
         # The inherited implementation swaps through __setitem__, which cannot take a node that is still in the list
